@@ -730,7 +730,7 @@ def cfg_assignment(c):
 _cfgcov = {}
 
 
-def cfg_coverage(used, exempt=()):
+def _cfg_coverage(used, exempt=()):
     """Evaluate every cfg predicate of the sources under the configurations `used` by a check. For a predicate true in none
     of them: borrow a registered configuration that satisfies it, else synthesise one (registered as auto-N), else say why
     not. `exempt`: glam features the property excludes (never turned on to satisfy a predicate).
@@ -839,6 +839,15 @@ def cfg_coverage(used, exempt=()):
             entry.setdefault("why", "not satisfiable on this host")
         table[text] = entry
     return table, extra
+
+
+def cfg_coverage(used, exempt=()):
+    """never lets an unforeseen shape of source text turn into a harness error: the analysis only ever *adds* configurations"""
+    try:
+        return _cfg_coverage(used, exempt)
+    except Exception as e:  # noqa
+        log("cfg predicate analysis failed (%r): continuing with the registered configurations only" % (e,))
+        return {"<analysis failed>": {"true_in": [], "why": repr(e)}}, []
 
 
 def cfg_summary(table, extra):
